@@ -569,7 +569,7 @@ func parseColor(token css_ast.Token) (parsedColor, bool) {
 
 			// HSL => RGB
 			if h, ok := degreesForAngle(h); ok {
-				if s, ok := s.ClampedFractionForPercentage(); ok {
+				if s, ok := fractionForSaturation(s); ok {
 					if l, ok := l.ClampedFractionForPercentage(); ok {
 						if a, ok := parseAlphaByte(a); ok {
 							r, g, b := hslToRgb(helpers.NewF64(h), helpers.NewF64(s), helpers.NewF64(l))
@@ -792,6 +792,21 @@ func hueToRgb(t1 F64, t2 F64, hue F64) F64 {
 		f = t1
 	}
 	return f
+}
+
+// Saturation is only clamped to be non-negative. A saturation above 100% is
+// used as-is and only the resulting color is clamped to the sRGB gamut:
+// https://drafts.csswg.org/css-color-4/#the-hsl-notation
+func fractionForSaturation(token css_ast.Token) (float64, bool) {
+	if token.Kind == css_lexer.TPercentage {
+		if f, err := strconv.ParseFloat(token.PercentageValue(), 64); err == nil {
+			if f < 0 {
+				return 0, true
+			}
+			return f / 100, true
+		}
+	}
+	return 0, false
 }
 
 func packRGBA(rf F64, gf F64, bf F64, a uint32) uint32 {
